@@ -287,6 +287,79 @@ pub fn check_lattice(world: &World, t: &Tok, lat: &LatticeObs, m: &Matrix, path_
     Ok(d.eos_max != d.eos_min)
 }
 
+/// The out-of-vocabulary part of the candidate set. The configured providers are asked directly, through the public
+/// plugin trait, in the documented order: at every reachable position all providers in turn unless the character is
+/// NOOOVBOW/NOOOVBOW2, each told the lengths (in characters) of the words that exist so far; then the last provider
+/// once more when nothing exists. The OOV nodes of the lattice that begin there must be exactly what they returned.
+/// Has to run before the results are collected (the input buffer moves into the list then).
+pub fn check_oov_candidates(world: &World, t: &Tok, lat: &LatticeObs, rep: &mut Report) -> Result<(), (String, String)> {
+    use sudachi::analysis::created::CreatedWords;
+    use sudachi::analysis::node::{LatticeNode, RightId};
+    use sudachi::analysis::stateless_tokenizer::DictionaryAccess;
+    use sudachi::dic::category_type::CategoryType;
+    use sudachi::input_text::InputTextIndex;
+    let input = t.tok.verif_input();
+    let provs = world.dict.oov_provider_plugins();
+    if provs.is_empty() {
+        return Ok(());
+    }
+    type K = (usize, u16, u16, i16, u32);
+    let mut by_begin: HashMap<usize, (Vec<usize>, Vec<K>)> = HashMap::new();
+    for b in 0..lat.nodes.len() {
+        for n in &lat.nodes[b] {
+            let e = by_begin.entry(n.begin).or_default();
+            if n.word_id >> 28 == 15 {
+                e.1.push((n.end, n.left_id, n.right_id, n.cost, n.word_id));
+            } else {
+                e.0.push(n.end - n.begin);
+            }
+        }
+    }
+    let mut positions = 0u64;
+    let mut stopgaps = 0u64;
+    for cb in 0..lat.nodes.len() - 1 {
+        if !(cb == 0 || !lat.nodes[cb].is_empty()) {
+            continue;
+        }
+        let (dict_lens, mut actual) = by_begin.remove(&cb).unwrap_or_default();
+        let mut created = CreatedWords::empty();
+        for l in &dict_lens {
+            created = created.add_word(*l as i64);
+        }
+        let mut buf = vec![];
+        let mut ask = |p: usize, created: CreatedWords, buf: &mut Vec<sudachi::analysis::Node>| -> Result<CreatedWords, (String, String)> {
+            let start = buf.len();
+            let n = provs[p].provide_oov(input, cb, created, buf).map_err(|e| ("oov_provider_error".to_string(), format!("provider {} asked directly at char {}: {:?}", p, cb, e)))?;
+            let mut c = created;
+            for node in &buf[start..start + n] {
+                c = c.add_word((node.end() - node.begin()) as i64);
+            }
+            Ok(c)
+        };
+        if !input.cat_at_char(cb).intersects(CategoryType::NOOOVBOW | CategoryType::NOOOVBOW2) {
+            for p in 0..provs.len() {
+                created = ask(p, created, &mut buf)?;
+            }
+        }
+        if created.is_empty() {
+            stopgaps += 1;
+            ask(provs.len() - 1, created, &mut buf)?;
+        }
+        let mut expected: Vec<K> = buf.iter().map(|n| (n.end(), n.left_id(), n.right_id(), n.cost(), n.word_id().as_raw())).collect();
+        expected.sort();
+        actual.sort();
+        positions += 1;
+        if expected != actual {
+            return Err(("oov_candidate_set".into(), format!(
+                "char {} (dictionary words of lengths {:?} start there): the providers, asked in the documented order with those lengths, return (end, left, right, cost, word id) {:?}; the lattice holds {:?}",
+                cb, dict_lens, expected, actual)));
+        }
+    }
+    rep.count("positions_oov_set_compared_with_providers", positions);
+    rep.count("positions_served_by_the_last_provider_only", stopgaps);
+    Ok(())
+}
+
 pub fn run(ctx: &Ctx, rep: &mut Report) {
     let n_worlds = ctx.n(400, 16000);
     let texts_per_world = if ctx.quick() { 30 } else { 80 };
@@ -349,10 +422,15 @@ pub fn run(ctx: &Ctx, rep: &mut Report) {
             }
             let lat = observe_lattice(&t);
             t.peek_ranges();
+            let scenario = || json!({"world_index": wi, "text_index": ti, "text": text, "normalized": lat.normalized, "world": world.describe(true)});
+            match guard(|| check_oov_candidates(&world, &t, &lat, rep)) {
+                Err(p) => rep.violation("accessor_panic", &p.site, &p.msg, "", scenario()),
+                Ok(Err((kind, msg))) => rep.violation(&kind, "check_oov_candidates", &msg, "", scenario()),
+                Ok(Ok(())) => {}
+            }
             if t.list.collect_results(&mut t.tok).is_err() {
                 continue;
             }
-            let scenario = || json!({"world_index": wi, "text_index": ti, "text": text, "normalized": lat.normalized, "world": world.describe(true)});
             match guard(|| check_lattice(&world, &t, &lat, &m, has_pr, rep)) {
                 Err(p) => rep.violation("accessor_panic", &p.site, &p.msg, "", scenario()),
                 Ok(Err((kind, msg))) => rep.violation(&kind, "check_lattice", &msg, "", scenario()),
